@@ -83,10 +83,10 @@ TEXT["C07"] = {
     "technique": "Lean 4 invariant proof (no node after stop) + hook counters under every node/poll deadline + black-box latency",
 }
 TEXT["C08"] = {
-    "level_text": "Full statements over the abstract game (MateInOnePlayed, AvoidableMateAvoided) with the score-window lemmas proved; the derivation from the alpha-beta contract is still open, so the property is currently decided per run: generated mate-in-one and mixed positions, depths 1..4, answers judged by the executable rules, with the model tied to the engine move-for-move.",
+    "level_text": "Kernel-checked over the abstract game: mate_in_one_played_of — from a fresh engine, for EVERY deadline oracle and every depth D >= 1 (D + INFINITY <= CHECKMATE_SCORE; the engine caps D at 64), a completed search answers with a checkmating move whenever one exists, under EvalBound (|eval| < INFINITY; for chess this is C14) and 'no root/child hash collision'; proved directly by an invariant over the iterations (mating move found at depth 1 because non-mating leaves stay inside the window, then re-found first through the table move at every deeper iteration). avoidable_mate_avoided_of — at depth 2 and 3, under the C05 hypotheses (no collision on the searched set, finite quiescence, no deeper record reused; no_deeper_reuse_of_ranked shows the last one holds on game trees) and EvalBound, the answer never allows a mate in one when some move avoids it; the depth-3 case holds because of iterative deepening (iterate_track). The bare statements without those hypotheses are refuted by machine-checked toy games (mate_in_one_needs_evalBound, mate_in_one_needs_no_collision, avoidable_mate_needs_evalBound), which is why the hypotheses are there. Every run: generated mate-in-one / mixed positions at depths 1..4, the engine's answers judged by the executable rules, model tied to the engine move for move.",
     "design_ref": "DESIGN.md section 6, C08",
-    "level_note": "Not a closed proof yet.",
-    "technique": "Lean 4 statements + window lemmas; differential with rules-based judging",
+    "level_note": 'Trusted: as C05; EvalBound for chess comes from C14 (eval_lt_infinity, <=16 men a side); hash-collision and finite-quiescence hypotheses are hypotheses.',
+    "technique": 'Lean 4 invariant proof over the iterative-deepening loop + alpha-beta contract (C05) + rules-judged differential',
 }
 TEXT["C03"] = {
     "level_text": "Kernel-checked over the abstract game, for EVERY deadline oracle (incl. a zero budget), every depth (incl. 0) and every earlier history of searches: the transposition table only ever holds moves that are legal in the position they are stored for (tt_move_legal_invariant), the answer of find_best_move is a legal move of the position searched, and it is 'no move' exactly when the position has no legal move (bestmove_legal, bestmove_none_iff); handle_go prints exactly one bestmove line. With C01 'legal for the generator' is 'legal under the rules'. The zero-budget defect (bestmove 0000 with legal moves) was reproduced and repaired by a fix: commit. Black-box runs check the real binary's bestmove lines against the spec's legal-move sets incl. real clocks.",
@@ -107,10 +107,10 @@ TEXT["C09"] = {
     "technique": "Lean 4 proofs over the engine model + differential through the engine's own searcher",
 }
 TEXT["C13"] = {
-    "level_text": "Machine-checked: ucinewgame returns the engine model to its initial state; key-independence simulation theorem in Props/C13.lean when discharged (see evidence). Every run: the real binary is executed in 3 fresh processes per script (independent key draws) and must give identical complete transcripts, equal to the model's transcript under other keys; prefix+ucinewgame+suffix must equal a fresh process on the suffix.",
+    "level_text": "Kernel-checked: search_key_independent — two processes that draw different hash keys print the SAME complete transcript (info lines with scores, node counts and pv, bestmove lines, outcome) for the same script, for every deadline oracle and fuel outcome, provided neither key stream collides on the boards the run hashes (visited: the boards of the position commands and the boards within D plies of the current board for a go of depth D); proved by a simulation between the two runs (tables agree through the position, repetition stacks position-wise equal, everything else equal) carried through quiescence, probe, negamax, iterate, find_best_move, position, go and the UCI loop; general form for key streams with the same collisions, and a form up to move counters (which the hash ignores). key_dependence_without_injectivity shows the hypothesis cannot be dropped; the first target statement (injective on ALL boards) is proved vacuous. ucinewgame_like_fresh_process / ucinewgame_like_new_process: after ucinewgame the rest of the transcript is that of a fresh process (any collision-free keys). Every run: the real binary in 3 fresh processes per script (independent key draws) must give identical transcripts equal to the model's transcript under the model's own keys; prefix + ucinewgame + suffix must equal a fresh process on the suffix.",
     "design_ref": "DESIGN.md section 6, C13",
-    "level_note": "Key independence currently rests on the multi-process comparison plus the structural theorems; HashInj assumed.",
-    "technique": "Lean 4 structural theorems (+ simulation proof when integrated); multi-process black-box determinism check against the model transcript",
+    "level_note": "Trusted: as C05; 'no collision on the visited boards' is a hypothesis (probability remark in DESIGN.md C11); rand::thread_rng not modelled (theorems quantify over all key streams).",
+    "technique": 'Lean 4 simulation proof between runs under different key tables (search + engine level) + multi-process black-box determinism check against the model transcript',
 }
 TEXT["C16"] = {
     "level_text": "Kernel-checked for every engine state: uci yields exactly the two id lines and uciok, isready yields readyok, a blank line or a line whose first token is not a command yields nothing and changes nothing (unknown_silent), quit ends the run with status 0 and later lines are ignored, and a run whose input ends terminates with status 0 (eof_exits_zero); transcripts compose. The end-of-input defect (infinite loop) was reproduced on the pinned binary and repaired by a fix: commit. The real binary is run on generated scripts and must match the model transcript and exit with status 0.",
